@@ -199,13 +199,17 @@ def h_pdhg(cfg, V):
     orig_me = sapp.MaxEig
     cnt = [0]
 
+    seen_ops = []
+
     class _MaxEigStub:
-        def __init__(self, *a, **k):
-            pass
+        def __init__(self, A, *a, **k):
+            seen_ops.append(A)
 
         def run(self):
             cnt[0] += 1
-            return _pos(V, "maxeig%d" % cnt[0])
+            vals.append(_pos(V, "maxeig%d" % cnt[0]))
+            return vals[-1]
+    vals = []
     sapp.MaxEig = _MaxEigStub
     try:
         app = P.app(cfg, x0, **kw)
@@ -213,6 +217,24 @@ def h_pdhg(cfg, V):
         sapp.MaxEig = orig_me
     al = app.alg
     obl = [("solver_is_pdhg", O.const(type(al).__name__ == "PrimalDualHybridGradient"))]
+    # default step sizes: the operator whose largest eigenvalue defines them must be K^H S K (tau defaulted) or K T K^H (sigma defaulted)
+    # for the FULL stacked operator K = [A; G] - that is what makes tau*sigma*||K||^2 <= 1
+    Kmat = P.Amat if P.G is None else np.vstack([P.Amat, P.Gmat])
+    if cfg["steps"] == "both":
+        obl.append(("no_power_iteration_when_both_steps_given", O.const(len(seen_ops) == 0)))
+    else:
+        obl.append(("one_power_iteration_for_the_default_step", O.const(len(seen_ops) == 1)))
+        if len(seen_ops) == 1:
+            op = seen_ops[0]
+            if cfg["steps"] in ("none", "sigma"):
+                sg = kw.get("sigma", 1)
+                v = V.array("pv", [P.n, 1], False)
+                obl.append(("tau_default_from_KH_S_K", O.eq(np.ravel(op(v)), np.ravel(Kmat.T @ (sg * (Kmat @ v))))))
+                obl.append(("tau_is_reciprocal_of_its_largest_eigenvalue", O.eq(al.tau * vals[-1], 1)))
+            else:
+                w = V.array("pw", [Kmat.shape[0], 1], False)
+                obl.append(("sigma_default_from_K_T_KH", O.eq(np.ravel(op(np.reshape(w, op.ishape))), np.ravel(Kmat @ (kw["tau"] * (Kmat.T @ w))))))
+                obl.append(("sigma_is_reciprocal_of_its_largest_eigenvalue", O.eq(al.sigma * vals[-1], 1)))
     x = V.array("x", [P.n, 1], False)
     ushape = list(np.shape(al.u))
     u = V.array("u", ushape, False)
